@@ -1354,15 +1354,21 @@ def full_traversal_item(node, tree=('field', ('param', 'self'), 'tree')):
 # ---------------------------------------------------------------------------------------
 # collections of child edges selected by their cached state (forward_if_redundant and its refactorings)
 
-STATE_VARIANTS = ('Infeasible', 'Indeterminate', 'Feasible', 'FeasibleWitness')
+STATE_VARIANTS = ('Infeasible', 'Indeterminate', 'Feasible', 'FeasibleWitness')   # replaced per run by the variants of the analysed NodeState
 FEASIBLE_STATES = frozenset(['Feasible', 'FeasibleWitness'])
+
+
+def _state_universe(F):
+    """all variants of the crate's NodeState as it is now (a variant added later must not be swallowed by a complement)"""
+    adt = F.adt('NodeState')
+    return set(v['name'] for v in adt['variants']) if adt else set(STATE_VARIANTS)
 
 
 def _state_formula(F, e, prm):
     """set of NodeState variants of prm.target_value.state for which the boolean expression e is true, or None"""
     from ..mir import strip_sites as s_
     e = s_(e)
-    allv = set(STATE_VARIANTS)
+    allv = _state_universe(F)
     if e[0] == 'un' and e[1] == 'Not':
         x = _state_formula(F, e[2], prm)
         return None if x is None else allv - x
@@ -1412,7 +1418,7 @@ def edge_collection(F, e):
         else:
             break
     if is_call(e, 'Tree::children') and len(e[2]) == 2:
-        return e, set(STATE_VARIANTS), 'child'
+        return e, _state_universe(F), 'child'
     if is_call(e, 'Iterator::filter') and len(e[2]) == 2 and e[2][1][0] == 'closure':
         sub = edge_collection(F, e[2][0])
         if sub is None or sub[2] != 'child':
@@ -1448,7 +1454,7 @@ def edge_collection(F, e):
                 v = s_(v)
                 if not (v[0] == 'agg' and isinstance(v[1], tuple) and v[1][1] == 'Either' and v[1][2] in ('Left', 'Right')):
                     return None
-                here = set(STATE_VARIANTS)
+                here = _state_universe(F)
                 for l in _lits(cb, Rc, bb):
                     if l[0] == 'is' and s_(l[1]) == ('field', ('field', prm, 'target_value'), 'state'):
                         here &= set(l[2])
@@ -1456,7 +1462,7 @@ def edge_collection(F, e):
                         st = _state_formula(F, l[1], prm)
                         if st is None:
                             return None
-                        here &= st if l[0] == 'true' else set(STATE_VARIANTS) - st
+                        here &= st if l[0] == 'true' else _state_universe(F) - st
                 if (v[1][2] == 'Left') == (side == 0):
                     states |= here
                     kinds.add(_elem_kind(v[2][0], prm, F))
@@ -1481,7 +1487,7 @@ def edge_collection(F, e):
                     st = set(k[1])
             if st is None:
                 return None
-            return sub[0], sub[1] & (st if side == 0 else set(STATE_VARIANTS) - st), sub[2]
+            return sub[0], sub[1] & (st if side == 0 else _state_universe(F) - st), sub[2]
     return None
 
 
